@@ -13,6 +13,8 @@ type MemFile struct {
 	Writes []WriteRec
 	Closed int
 	Fail   bool // WriteAt/ReadAt return an error
+	// OnWrite, if set, is called for every successful WriteAt (effect log of crash-order harnesses).
+	OnWrite func(off int64, n int)
 }
 
 type WriteRec struct {
@@ -49,6 +51,9 @@ func (f *MemFile) WriteAt(p []byte, off int64) (int, error) {
 		return 0, ErrIO
 	}
 	copy(f.Data[off:], p)
+	if f.OnWrite != nil {
+		f.OnWrite(off, len(p))
+	}
 	return len(p), nil
 }
 
@@ -118,8 +123,8 @@ func (c *Conn) Read(p []byte) (int, error) {
 	return n, nil
 }
 
-func (c *Conn) Close() error                       { c.Closed++; return nil }
-func (c *Conn) LocalAddr() net.Addr                { return Addr{} }
+func (c *Conn) Close() error        { c.Closed++; return nil }
+func (c *Conn) LocalAddr() net.Addr { return Addr{} }
 func (c *Conn) RemoteAddr() net.Addr {
 	if c.Remote == nil {
 		c.Remote = &net.TCPAddr{IP: net.IP{1, 2, 3, 4}, Port: 5}
